@@ -660,10 +660,20 @@ impl NestHandle {
 	}
 }
 
+#[derive(Clone, Copy, PartialEq, Eq, Debug)]
+pub enum BuildStatus {
+	Built,
+	/// the checked constructor returned None
+	Rejected,
+	/// a member refers to a collection that does not exist (rejected or skipped itself)
+	Skipped,
+}
+
 pub struct BuiltColl {
-	/// None = the checked constructor rejected the input
+	/// None = rejected or skipped
 	pub target: Option<&'static dyn DynTarget>,
 	pub nest: Option<NestHandle>,
+	pub status: BuildStatus,
 }
 
 pub struct World {
@@ -879,7 +889,7 @@ impl World {
 		for c in &spec.colls {
 			let built = match &c.content {
 				Content::ByRef(ms) => match build_members(ms, &leaves, &colls) {
-					None => BuiltColl { target: None, nest: None },
+					None => BuiltColl { target: None, nest: None, status: BuildStatus::Skipped },
 					Some(v) => {
 						let n = v.len();
 						if c.cont == Cont::Vec {
@@ -888,39 +898,39 @@ impl World {
 								(KindTag::Boxed, false) => match Boxed::try_new(v) {
 									Some(b) => {
 										let r = arena.put(b);
-										BuiltColl { target: Some(r), nest: Some(NestHandle::BoxedV(r)) }
+										BuiltColl { target: Some(r), nest: Some(NestHandle::BoxedV(r)), status: BuildStatus::Built }
 									}
-									None => BuiltColl { target: None, nest: None },
+									None => BuiltColl { target: None, nest: None, status: BuildStatus::Rejected },
 								},
 								(KindTag::Boxed, true) => match Boxed::try_new(v) {
 									Some(b) => {
 										let r = arena.put(Poisonable::new(b));
-										BuiltColl { target: Some(r), nest: Some(NestHandle::PBoxedV(r)) }
+										BuiltColl { target: Some(r), nest: Some(NestHandle::PBoxedV(r)), status: BuildStatus::Built }
 									}
-									None => BuiltColl { target: None, nest: None },
+									None => BuiltColl { target: None, nest: None, status: BuildStatus::Rejected },
 								},
 								(KindTag::Retry, false) => match Retry::try_new(v) {
 									Some(b) => {
 										let r = arena.put(b);
-										BuiltColl { target: Some(r), nest: Some(NestHandle::RetryV(r)) }
+										BuiltColl { target: Some(r), nest: Some(NestHandle::RetryV(r)), status: BuildStatus::Built }
 									}
-									None => BuiltColl { target: None, nest: None },
+									None => BuiltColl { target: None, nest: None, status: BuildStatus::Rejected },
 								},
 								(KindTag::Retry, true) => match Retry::try_new(v) {
 									Some(b) => {
 										let r = arena.put(Poisonable::new(b));
-										BuiltColl { target: Some(r), nest: Some(NestHandle::PRetryV(r)) }
+										BuiltColl { target: Some(r), nest: Some(NestHandle::PRetryV(r)), status: BuildStatus::Built }
 									}
-									None => BuiltColl { target: None, nest: None },
+									None => BuiltColl { target: None, nest: None, status: BuildStatus::Rejected },
 								},
 								(KindTag::Ref, false) => {
 									let cv: &'static Vec<Mem> = arena.put(v);
 									match RefC::try_new(cv) {
 										Some(b) => {
 											let r = arena.put(b);
-											BuiltColl { target: Some(r), nest: Some(NestHandle::RefV(r)) }
+											BuiltColl { target: Some(r), nest: Some(NestHandle::RefV(r)), status: BuildStatus::Built }
 										}
-										None => BuiltColl { target: None, nest: None },
+										None => BuiltColl { target: None, nest: None, status: BuildStatus::Rejected },
 									}
 								}
 								(KindTag::Ref, true) => {
@@ -928,16 +938,16 @@ impl World {
 									match RefC::try_new(cv) {
 										Some(b) => {
 											let r = arena.put(Poisonable::new(b));
-											BuiltColl { target: Some(r), nest: None }
+											BuiltColl { target: Some(r), nest: None, status: BuildStatus::Built }
 										}
-										None => BuiltColl { target: None, nest: None },
+										None => BuiltColl { target: None, nest: None, status: BuildStatus::Rejected },
 									}
 								}
 								(KindTag::Owned, _) => unreachable!("validated"),
 							}
 						} else {
 							let t = dispatch_cont!(c.cont, n, Mem, build_byref_generic, c.kind, v, &mut arena);
-							BuiltColl { target: t, nest: None }
+							BuiltColl { target: t, nest: None, status: if t.is_some() { BuildStatus::Built } else { BuildStatus::Rejected } }
 						}
 					}
 				},
@@ -948,63 +958,63 @@ impl World {
 						match (c.kind, c.ctor, c.pois) {
 							(KindTag::Owned, _, false) => {
 								let r = arena.put(Owned::new(v));
-								BuiltColl { target: Some(r), nest: Some(NestHandle::OwnedO(r)) }
+								BuiltColl { target: Some(r), nest: Some(NestHandle::OwnedO(r)), status: BuildStatus::Built }
 							}
 							(KindTag::Owned, _, true) => {
 								let r = arena.put(Poisonable::new(Owned::new(v)));
-								BuiltColl { target: Some(r), nest: Some(NestHandle::POwnedO(r)) }
+								BuiltColl { target: Some(r), nest: Some(NestHandle::POwnedO(r)), status: BuildStatus::Built }
 							}
 							(KindTag::Boxed, Ctor::New, _) => {
 								let r = arena.put(Boxed::new(v));
-								BuiltColl { target: Some(r), nest: Some(NestHandle::BoxedO(r)) }
+								BuiltColl { target: Some(r), nest: Some(NestHandle::BoxedO(r)), status: BuildStatus::Built }
 							}
 							(KindTag::Boxed, Ctor::TryNew, _) => match Boxed::try_new(v) {
 								Some(b) => {
 									let r = arena.put(b);
-									BuiltColl { target: Some(r), nest: Some(NestHandle::BoxedO(r)) }
+									BuiltColl { target: Some(r), nest: Some(NestHandle::BoxedO(r)), status: BuildStatus::Built }
 								}
-								None => BuiltColl { target: None, nest: None },
+								None => BuiltColl { target: None, nest: None, status: BuildStatus::Rejected },
 							},
 							(KindTag::Retry, Ctor::New, _) => {
 								let r = arena.put(Retry::new(v));
-								BuiltColl { target: Some(r), nest: Some(NestHandle::RetryO(r)) }
+								BuiltColl { target: Some(r), nest: Some(NestHandle::RetryO(r)), status: BuildStatus::Built }
 							}
 							(KindTag::Retry, Ctor::TryNew, _) => match Retry::try_new(v) {
 								Some(b) => {
 									let r = arena.put(b);
-									BuiltColl { target: Some(r), nest: Some(NestHandle::RetryO(r)) }
+									BuiltColl { target: Some(r), nest: Some(NestHandle::RetryO(r)), status: BuildStatus::Built }
 								}
-								None => BuiltColl { target: None, nest: None },
+								None => BuiltColl { target: None, nest: None, status: BuildStatus::Rejected },
 							},
 							(KindTag::Ref, Ctor::TryNew, _) => {
 								let cv: &'static Vec<OMem> = arena.put(v);
 								match RefC::try_new(cv) {
 									Some(b) => {
 										let r = arena.put(b);
-										BuiltColl { target: Some(r), nest: Some(NestHandle::RefO(r)) }
+										BuiltColl { target: Some(r), nest: Some(NestHandle::RefO(r)), status: BuildStatus::Built }
 									}
-									None => BuiltColl { target: None, nest: None },
+									None => BuiltColl { target: None, nest: None, status: BuildStatus::Rejected },
 								}
 							}
 							(KindTag::Ref, _, _) => {
 								let cv: &'static Vec<OMem> = arena.put(v);
 								let r = arena.put(RefC::new(cv));
-								BuiltColl { target: Some(r), nest: Some(NestHandle::RefO(r)) }
+								BuiltColl { target: Some(r), nest: Some(NestHandle::RefO(r)), status: BuildStatus::Built }
 							}
 							(KindTag::Boxed, Ctor::NewRef, _) => {
 								let cv: &'static Vec<OMem> = arena.put(v);
 								let r = arena.put(Boxed::new_ref(cv));
-								BuiltColl { target: Some(r), nest: None }
+								BuiltColl { target: Some(r), nest: None, status: BuildStatus::Built }
 							}
 							(KindTag::Retry, Ctor::NewRef, _) => {
 								let cv: &'static Vec<OMem> = arena.put(v);
 								let r = arena.put(Retry::new_ref(cv));
-								BuiltColl { target: Some(r), nest: None }
+								BuiltColl { target: Some(r), nest: None, status: BuildStatus::Built }
 							}
 						}
 					} else {
 						let t = dispatch_cont!(c.cont, n, OMem, build_byval_generic, c.kind, c.ctor, v, &mut arena);
-						BuiltColl { target: t, nest: None }
+						BuiltColl { target: t, nest: None, status: if t.is_some() { BuildStatus::Built } else { BuildStatus::Rejected } }
 					}
 				}
 			};
